@@ -266,6 +266,31 @@ def run(ctx, res):
             rows = refpng.decode(open(b, 'rb').read())[3]
             if any((x >> 2) != (y >> 2) for r1_, r2_ in zip(rows, lab[1]) for x, y in zip(r1_, r2_)):
                 res.fail('C04:convert-label:' + hx(code)[:40], 'existing destination label picture not kept', {'code': hx(code)})
+    # a refused cart leaves nothing behind: an oversize write to a fresh name, then a fitting write to the same name
+    for i in range(ctx.budget(2, 10)):
+        big = U.make_game(rng=rng, code=b'--' + incompressible(rng, AREA + rng.choice([0, 1, 700])), version=8)
+        small = U.make_game(rng=rng, code=b'x=%d\n' % i, version=8)
+        pth = os.path.join(ctx.tmp, 'refuse%d.p8.png' % i)
+        res.evaluations += 1
+        res.count('refused-then-written')
+        res.nontrivial.add(('refuse-then-write', i))
+        key = 'C04:refuse-then-write:%d' % i
+        try:
+            gfile.to_file(big, pth)
+            res.fail(key, 'an oversize cart was written through file.to_file instead of refused', {'code_len': len(b''.join(big.lua.to_lines()))})
+            continue
+        except Exception:
+            pass
+        if os.path.exists(pth):
+            res.fail(key, 'a refused cart left a file of %d bytes at a destination that did not exist before' % os.path.getsize(pth), {'step': 'refused write'})
+            continue
+        try:
+            gfile.to_file(small, pth)
+            back = gfile.from_file(pth)
+            if U.regions_of(back) != U.regions_of(small) or b''.join(back.lua.to_lines()).rstrip(b'\n') != b'x=%d' % i:
+                res.fail(key, 'a fitting cart written after a refused one to the same name does not read back', {'step': 'second write'})
+        except Exception as e:
+            res.fail(key, 'after a refused write, a fitting cart cannot be written to the same name (%r)' % (e,), {'step': 'second write'})
     # code-area decoding on arbitrary areas (model vs implementation)
     for _ in range(ctx.budget(40, 600)):
         n = rng.choice([0, 1, 5, 40])
